@@ -27,7 +27,7 @@ static void rdesc_str(const rdesc_t *d, char *o) {
     n += sprintf(o + n, "%c%d.%d)", c, d->w, d->d);
 }
 /* my own parser of a Fortran format field; returns 'I', 'R' or 0 */
-static int parse_fmt(const char *s, idesc_t *I, rdesc_t *R) {
+static int parse_fmt(const char *s, idesc_t *ID, rdesc_t *R) {
     int num = -1, p = 0;
     while (*s == ' ') s++;
     if (*s != '(') return 0;
@@ -39,7 +39,7 @@ static int parse_fmt(const char *s, idesc_t *I, rdesc_t *R) {
     }
     char c = *s++; int lower = islower((unsigned char)c) != 0; c = (char)toupper((unsigned char)c);
     int w = 0; while (isdigit((unsigned char)*s)) w = w * 10 + (*s++ - '0');
-    if (c == 'I') { if (*s != ')' || !w) return 0; I->k = num < 0 ? 0 : num; I->w = w; I->lower = lower; return 'I'; }
+    if (c == 'I') { if (*s != ')' || !w) return 0; ID->k = num < 0 ? 0 : num; ID->w = w; ID->lower = lower; return 'I'; }
     if (c == 'E' || c == 'D' || c == 'F' || c == 'G') {
         int d = 0; if (*s != '.') return 0; s++;
         while (isdigit((unsigned char)*s)) d = d * 10 + (*s++ - '0');
